@@ -93,6 +93,7 @@ mut('C20-updated-flag-always-false', (P + 'dumpers/to_sql.py', "            row[
 mut('C20-update-keys-first-field-only', (P + 'dumpers/to_sql.py', "                if update_keys is None:\n                    update_keys = schema_descriptor.get('primaryKey', [])\n", "                if update_keys is None:\n                    update_keys = schema_descriptor.get('primaryKey', [])\n                update_keys = update_keys[:1]\n"))
 mut('C16-iterable-name-collides', (H + 'iterable_loader.py', "            while 'res_{}'.format(index) in existing:\n                index += 1\n", "            pass\n"))
 mut('C07-load-keeps-previous-run', (P + 'load.py', "        # Running the same flow again starts from scratch\n        self.resource_descriptors = []\n        self.iterators = []\n", "        # Running the same flow again starts from scratch\n"))
+mut('C09-size-from-unused-handle', (P + 'dumpers/file_dumper.py', "        temp_file.seek(0, os.SEEK_END)\n        filesize = temp_file.tell()\n", "        filesize = temp_file.tell()\n"))
 
 
 def main():
